@@ -375,6 +375,16 @@ PDFStackT = PSStackType[PDFStream]
 """Types that may appear on the PDF argument stack."""
 
 
+def _numbers(value: object, n: int) -> Optional[Tuple[float, ...]]:
+    """The n numbers of an array (entries may be indirect), else None."""
+    values = [resolve1(v) for v in list_value(value)]
+    if len(values) != n:
+        return None
+    if not all(isinstance(v, (int, float)) for v in values):
+        return None
+    return tuple(values)
+
+
 class PDFPageInterpreter:
     """Processor for the content of a PDF page
 
@@ -1253,8 +1263,14 @@ class PDFPageInterpreter:
         subtype = xobj.get("Subtype")
         if subtype is LITERAL_FORM and "BBox" in xobj:
             interpreter = self.dup()
-            bbox = cast(Rect, list_value(xobj["BBox"]))
-            matrix = cast(Matrix, list_value(xobj.get("Matrix", MATRIX_IDENTITY)))
+            bbox = cast(Optional[Rect], _numbers(xobj["BBox"], 4))
+            if bbox is None:
+                log.warning("Ignoring form XObject %r with invalid BBox", xobjid)
+                return
+            matrix = cast(Optional[Matrix], _numbers(xobj.get("Matrix", MATRIX_IDENTITY), 6))
+            if matrix is None:
+                # absent, or not six numbers
+                matrix = MATRIX_IDENTITY
             # According to PDF reference 1.7 section 4.9.1, XObjects in
             # earlier PDFs (prior to v1.2) use the page's Resources entry
             # instead of having their own Resources entry.
